@@ -494,7 +494,7 @@ def check_store_scoping(prog, rep, r_enum, r_write, r_whole):
             # ---- R2 / R5 ----
             if in_storage:
                 continue
-            scoped, _ = scoped_id_sources(prog, fn, mod, cls)
+            scoped, list_scoped_ = scoped_id_sources(prog, fn, mod, cls)
             for n in walk_no_nested(fn):
                 # method calls on the store graph
                 if isinstance(n, ast.Call) and isinstance(n.func, ast.Attribute) and is_store_graph_expr(n.func.value, aliases):
@@ -531,6 +531,17 @@ def check_store_scoping(prog, rep, r_enum, r_write, r_whole):
                             if cn == 'contracted_nodes' and fn.name == 'merge_nodes':
                                 ids = n.args[1:3]
                                 if len(ids) == 2 and all(id_expr_is_scoped(x, scoped) for x in ids):
+                                    continue
+                            if cn == 'set_node_attributes' and len(n.args) >= 2 and isinstance(n.args[1], ast.DictComp) and \
+                                    len(n.args[1].generators) == 1 and not n.args[1].generators[0].ifs:
+                                # nx.set_node_attributes(G, {n: value for n in <ids of this graph>}, name=..): writes exactly the listed nodes
+                                g_ = n.args[1].generators[0]
+                                it_ = g_.iter
+                                it_scoped = (isinstance(it_, ast.Name) and it_.id in list_scoped_) or \
+                                    (isinstance(it_, ast.Call) and call_name(it_) == '_find_all_nodes') or \
+                                    (isinstance(it_, ast.Call) and call_name(it_) == 'list' and it_.args and isinstance(it_.args[0], ast.Call) and
+                                     call_name(it_.args[0]) == '_find_all_nodes')
+                                if it_scoped and isinstance(g_.target, ast.Name) and isinstance(n.args[1].key, ast.Name) and n.args[1].key.id == g_.target.id:
                                     continue
                             rep.violation(r_write, loc(mod, n), fq, norm(n, 130),
                                           f'the shared store graph (all graphs) is handed to {cn}(): whatever it changes is '
